@@ -257,6 +257,15 @@ def rule_ensure_templates(ctx):
             names = [t for vals in ev.last_env.values() for t in vals if isinstance(t, tuple) and "insert" in repr(t) and repr(("fieldof", EACH_PH, "name")) in repr(t)]
             ok = any(t[0] == "phi" and "insert" in repr(t) and repr(("fieldof", EACH_PH, "name")) in repr(t) for t in names) or \
                 any("insert" in repr(t) and repr(("fieldof", EACH_PH, "name")) in repr(t) for t in names)
+            if not ok:
+                # `find(|p| !seen.insert(p.name.clone()))`: the test itself records the name of every placeholder it looks at
+                finds = [x for x in sym.subterms(v) if isinstance(x, tuple) and x[:2] == ("call", "Iterator::find") and len(x[2]) == 2 and isinstance(x[2][1], tuple) and x[2][1][:1] == ("closure",)]
+                for fd in finds:
+                    par = fd[2][1][1][0] if len(fd[2][1][1]) == 1 else None
+                    ins = [y for y in sym.subterms(fd[2][1][2]) if isinstance(y, tuple) and y[:1] == ("call",) and str(y[1]).endswith("Set::insert") and len(y[2]) == 2]
+                    if par and any(repr(("place", par + ".name")) in repr(y[2][1]) or repr(("fieldof", ("param", par), "name")) in repr(y[2][1]) for y in ins) \
+                            and "UserGuide::placeholders" in repr(fd[2][0]):
+                        ok = True
             ctx.add("TPL", "ensure:placeholder-names-recorded", ok, ctx.site(b), "every placeholder name not yet seen is inserted into the seen set", construct=names)
     # roles accepted by the specification validator vs. roles the consumer treats as unreachable (contradiction rule)
     b = fx.fn(SELF + "::ensure_specification_roles_are_supported")
